@@ -5,6 +5,7 @@ import (
 	"fmt"
 	"os"
 	"sort"
+	"strings"
 
 	"github.com/tendermint/tendermint/consensus"
 	cstypes "github.com/tendermint/tendermint/consensus/types"
@@ -920,7 +921,11 @@ func (w *world) playHeight(shadow *Shadow, h int64, maxRounds int32) {
 			prevGroup = pc.group
 		}
 		// occasionally a few free-form steps in between
-		for i := rapid.IntRange(0, 3).Draw(w.t, "free"); i > 0; i-- {
+		free := rapid.IntRange(0, 3).Draw(w.t, "free")
+		if w.forced != nil {
+			free = 0 // a scripted prefix is not disturbed by free-form steps
+		}
+		for i := free; i > 0; i-- {
 			switch rapid.SampledFrom([]string{"one", "class", "fire", "burst"}).Draw(w.t, "freeact") {
 			case "one":
 				w.deliverOne()
@@ -1117,6 +1122,17 @@ func RunStructured(t *rapid.T, opt Options) {
 			}
 		}
 		lib.Class(test, stage)
+		if f := os.Getenv("VERIF_GADGET_TRACE"); f != "" && stage >= "gadget:2" {
+			if fh, err := os.OpenFile(f, os.O_APPEND|os.O_CREATE|os.O_WRONLY, 0o644); err == nil {
+				fmt.Fprintf(fh, "==== %s victim=%d r0=%d powers=%v faulty=%v\n", stage, w.victim, gadgetR0, s.powers, s.faulty)
+				for _, e := range w.net.Events {
+					if strings.Contains(e, "emits") || strings.Contains(e, "injects") || strings.Contains(e, "fire") {
+						fmt.Fprintln(fh, e)
+					}
+				}
+				fh.Close()
+			}
+		}
 	}
 	w.finish(test, "structured", 0)
 }
